@@ -2,10 +2,12 @@ package planner
 
 import (
 	"crypto/sha1"
+	"io"
 	"sync"
 	"time"
 
 	"github.com/buildbuildio/pebbles/format"
+	"github.com/vektah/gqlparser/v2/ast"
 )
 
 type hashKey [20]byte
@@ -37,10 +39,36 @@ func (cp *CachedPlanner) WithPlannerExecutor(e Planner) *CachedPlanner {
 	return cp
 }
 
+// hash covers everything of the operation a plan depends on: the operation type and name
+// (both are baked into the root steps), the formatted selection set, and the type conditions
+// of the spread fragments (the formatter prints a spread as `... Name { body }`).
 func (cp *CachedPlanner) hash(ctx *PlanningContext) hashKey {
-	s := format.NewBufferedFormatter().FormatSelectionSet(ctx.Operation.SelectionSet)
-	sha1 := sha1.Sum([]byte(s))
-	return sha1
+	h := sha1.New()
+	io.WriteString(h, string(ctx.Operation.Operation))
+	h.Write([]byte{0})
+	io.WriteString(h, ctx.Operation.Name)
+	h.Write([]byte{0})
+	io.WriteString(h, format.NewBufferedFormatter().FormatSelectionSet(ctx.Operation.SelectionSet))
+	writeFragmentTypeConditions(h, ctx.Operation.SelectionSet)
+
+	var hk hashKey
+	copy(hk[:], h.Sum(nil))
+	return hk
+}
+
+func writeFragmentTypeConditions(w io.Writer, selectionSet ast.SelectionSet) {
+	for _, s := range selectionSet {
+		switch s := s.(type) {
+		case *ast.Field:
+			writeFragmentTypeConditions(w, s.SelectionSet)
+		case *ast.InlineFragment:
+			writeFragmentTypeConditions(w, s.SelectionSet)
+		case *ast.FragmentSpread:
+			w.Write([]byte{0})
+			io.WriteString(w, s.Definition.TypeCondition)
+			writeFragmentTypeConditions(w, s.Definition.SelectionSet)
+		}
+	}
 }
 
 func (cp *CachedPlanner) clean() {
